@@ -22,6 +22,7 @@ mod trend;
 mod contexts;
 mod pathfs;
 mod inject;
+mod tenantstore;
 
 fn main() {
     let args: Vec<String> = std::env::args().collect();
@@ -61,6 +62,7 @@ fn main() {
         "ctx-load" => contexts::load(rest),
         "pathfs-replay" => pathfs::replay(rest),
         "inject-replay" => inject::replay(rest),
+        "tenantstore-replay" => tenantstore::replay(rest),
         "for-expand" => misc::for_expand(rest),
         "event-file" => misc::event_file(rest),
         other => {
